@@ -30,6 +30,9 @@ pub enum Op {
     /// node 0 dials node 1 unless connected
     Reconnect,
     Sleep { ms: u16 },
+    /// the node's only worker thread is blocked for `ms`: a silent peer (sockets stay open, nothing is answered; substream
+    /// opens towards it run into the 1.5 s open timeout)
+    Freeze { node: u8, ms: u16 },
     /// quiet pause, then a clean open that must be answered
     /// open a stream to a connected peer that does not run the notification protocol at all: exactly one open-failure
     OpenToBare { node: u8 },
@@ -38,6 +41,10 @@ pub enum Op {
         /// force-close the connection from this node's side this many hundred microseconds after the open request
         #[serde(default)]
         cut: Option<(u8, u8)>,
+        /// judge 'nothing in progress' from the opener's own history only (the remote may still be in the middle of a
+        /// negotiation, which the 10 s negotiation timeout bounds): the answer is awaited for 13 s instead of 4 s
+        #[serde(default)]
+        one_sided: bool,
     },
 }
 
@@ -62,7 +69,8 @@ fn strategy() -> impl Strategy<Value = Case> {
         3 => node.clone().prop_map(|node| Op::ForceClose { node }),
         4 => Just(Op::Reconnect),
         5 => prop_oneof![Just(0u16), Just(3), Just(20), Just(120)].prop_map(|ms| Op::Sleep { ms }),
-        2 => (node, prop::option::weighted(0.4, (0u8..2, prop_oneof![Just(0u8), Just(1), Just(3), Just(10), Just(30)]))).prop_map(|(node, cut)| Op::CleanOpen { node, cut }),
+        1 => (node.clone(), prop_oneof![Just(150u16), Just(1800)]).prop_map(|(node, ms)| Op::Freeze { node, ms }),
+        2 => (node, prop::option::weighted(0.4, (0u8..2, prop_oneof![Just(0u8), Just(1), Just(3), Just(10), Just(30)]))).prop_map(|(node, cut)| Op::CleanOpen { node, cut, one_sided: false }),
     ];
     (
         [prop::bool::weighted(0.3), prop::bool::weighted(0.3)],
@@ -84,7 +92,7 @@ fn clean_strategy() -> impl Strategy<Value = Case> {
         1 => node.clone().prop_map(|node| Op::OpenToBare { node }),
     ];
     let clean = (node.clone(), prop::option::weighted(0.7, (0u8..2, prop_oneof![Just(0u8), Just(1), Just(2), Just(4), Just(8), Just(15), Just(40)])))
-        .prop_map(|(node, cut)| Op::CleanOpen { node, cut });
+        .prop_map(|(node, cut)| Op::CleanOpen { node, cut, one_sided: false });
     let item = prop_oneof![1 => pre, 3 => clean];
     (
         [prop::bool::weighted(0.4), prop::bool::weighted(0.4)],
@@ -114,7 +122,7 @@ fn stale_strategy() -> impl Strategy<Value = Case> {
         any::<bool>(),                                  // answer before the reconnect?
         0u8..4,                                         // policy of the validator after the stale answer
         prop::collection::vec((0usize..8, extra), 0..4),
-        prop::collection::vec(node.clone().prop_map(|node| Op::CleanOpen { node, cut: None }), 0..2),
+        prop::collection::vec(node.clone().prop_map(|node| Op::CleanOpen { node, cut: None, one_sided: false }), 0..2),
         any::<u64>(),
     )
         .prop_map(|(opener, closer, accept, before, later_policy, extras, tail, seed)| {
@@ -129,6 +137,51 @@ fn stale_strategy() -> impl Strategy<Value = Case> {
             }
             ops.push(Op::SetPolicy { node: v, policy: later_policy });
             ops.push(Op::Open { node: opener });
+            for (at, op) in extras {
+                let at = at.min(ops.len());
+                ops.insert(at, op);
+            }
+            ops.extend(tail);
+            let mut policy = [0u8, 0u8];
+            policy[v as usize] = 2;
+            Case { auto_accept: [false, false], policy, ops, seed }
+        })
+}
+
+/// Histories built around a peer that falls silent in the middle of a negotiation: one side opens, the other side's user
+/// has not answered the validation yet, then one of the two freezes for longer than the substream-open timeout and the
+/// validation is answered — the accepting side's own outbound half then fails to open while the connection stays up.
+fn silent_strategy() -> impl Strategy<Value = Case> {
+    let node = 0u8..2;
+    let extra = prop_oneof![
+        2 => node.clone().prop_map(|node| Op::Open { node }),
+        1 => node.clone().prop_map(|node| Op::Close { node }),
+        2 => prop_oneof![Just(0u16), Just(20), Just(120)].prop_map(|ms| Op::Sleep { ms }),
+        1 => node.clone().prop_map(|node| Op::SendSync { node }),
+        1 => (node.clone(), any::<bool>()).prop_map(|(node, accept)| Op::Answer { node, accept }),
+        1 => node.clone().prop_map(|node| Op::ForceClose { node }),
+    ];
+    (
+        node.clone(),  // the opener
+        any::<bool>(), // the opener is the one that freezes (else the validator)
+        prop_oneof![3 => Just(1700u16), 2 => Just(2200), 1 => Just(600)],
+        prop::bool::weighted(0.85), // accept?
+        prop_oneof![Just(0u16), Just(5), Just(40)],
+        prop::collection::vec((0usize..8, extra), 0..3),
+        prop::collection::vec((node.clone(), prop::bool::weighted(0.8)).prop_map(|(node, one_sided)| Op::CleanOpen { node, cut: None, one_sided }), 1..3),
+        any::<u64>(),
+    )
+        .prop_map(|(opener, opener_freezes, ms, accept, gap, extras, tail, seed)| {
+            let v = 1 - opener;
+            let mut ops = vec![
+                Op::Open { node: opener },
+                Op::Sleep { ms: 120 },
+                Op::Freeze { node: if opener_freezes { opener } else { v }, ms },
+                Op::Sleep { ms: gap },
+                Op::Answer { node: v, accept },
+                Op::Sleep { ms: 120 },
+                Op::SetPolicy { node: v, policy: 0 },
+            ];
             for (at, op) in extras {
                 let at = at.min(ops.len());
                 ops.insert(at, op);
@@ -161,9 +214,12 @@ fn notif_setup(auto_accept: bool, policy: u8) -> NotifSetup {
 
 /// Is the pair quiet: no notification-related event on either end for `quiet`, stream not open, no unanswered validation,
 /// no unresolved open request?
-fn pair_is_clean(log: &[Obs], peers: &[PeerId], quiet: Duration) -> bool {
+fn pair_is_clean(log: &[Obs], peers: &[PeerId], quiet: Duration, only: Option<usize>) -> bool {
     let now = Instant::now();
     for n in 0..2usize {
+        if only.map(|o| o != n).unwrap_or(false) {
+            continue;
+        }
         let other = peers[1 - n];
         let mut open = false;
         let mut pending_validate = false;
@@ -267,6 +323,13 @@ fn run_case_with(c: &Case, avoid_reject: bool) -> CaseResult {
     };
     connect(&nodes, &log)?;
     let mut policy = c.policy;
+    let mut frozen_until: [Option<Instant>; 2] = [None, None];
+    let mut froze_during_negotiation = false;
+    let wait_thaw = |f: &[Option<Instant>; 2]| {
+        if let Some(u) = f.iter().flatten().max() {
+            std::thread::sleep(u.saturating_duration_since(Instant::now()));
+        }
+    };
     let mut simultaneous = false;
     let mut disconnect_during_validation = false;
     let mut reject_then_reopen = false;
@@ -334,9 +397,34 @@ fn run_case_with(c: &Case, avoid_reject: bool) -> CaseResult {
                 let _ = nodes[n].probes[0].send(ProbeCmd::ForceClose(peers[1 - n]));
                 std::thread::sleep(Duration::from_millis(40));
             }
-            Op::Reconnect => connect(&nodes, &log)?,
+            Op::Reconnect => {
+                wait_thaw(&frozen_until);
+                connect(&nodes, &log)?
+            }
             Op::Sleep { ms } => std::thread::sleep(Duration::from_millis(*ms as u64)),
+            Op::Freeze { node, ms } => {
+                let n = *node as usize % 2;
+                if frozen_until[n].map(|u| Instant::now() < u).unwrap_or(false) {
+                    continue;
+                }
+                {
+                    // a negotiation is in progress when a validation is unanswered on either side
+                    let l = log.lock();
+                    for m in 0..2usize {
+                        let other = peers[1 - m];
+                        let val = l.iter().filter(|o| o.node == m && matches!(&o.kind, ObsKind::NotifValidate { peer } if *peer == other)).count();
+                        let ans = l.iter().filter(|o| o.node == m && matches!(&o.kind, ObsKind::NotifOpened { peer, .. } | ObsKind::NotifOpenFailure { peer, .. } if *peer == other)).count();
+                        if val > ans {
+                            froze_during_negotiation = true;
+                        }
+                    }
+                }
+                nodes[n].send(Cmd::Freeze(Duration::from_millis(*ms as u64)));
+                frozen_until[n] = Some(Instant::now() + Duration::from_millis(*ms as u64 + 40));
+                std::thread::sleep(Duration::from_millis(3));
+            }
             Op::OpenToBare { node } => {
+                wait_thaw(&frozen_until);
                 let n = *node as usize % 2;
                 let bare = peers[3];
                 if !connected(&log.lock(), n, &bare) {
@@ -360,7 +448,7 @@ fn run_case_with(c: &Case, avoid_reject: bool) -> CaseResult {
                 ensure!(opened == 0 && failed == 1, "C11/open-request-to-peer-without-the-protocol-wrongly-answered", "node {n}: {opened} opened, {failed} open-failure events");
                 bare_opens += 1;
             }
-            Op::CleanOpen { node, cut } => {
+            Op::CleanOpen { node, cut, one_sided } => {
                 let n = *node as usize % 2;
                 let m = 1 - n;
                 if policy[m] == 2 {
@@ -371,12 +459,13 @@ fn run_case_with(c: &Case, avoid_reject: bool) -> CaseResult {
                     steered = true;
                     continue;
                 }
+                wait_thaw(&frozen_until);
                 connect(&nodes, &log)?;
                 // wait for the pair to become provably clean (bounded)
                 let start = Instant::now();
                 let mut clean = false;
                 while start.elapsed() < Duration::from_millis(1200) {
-                    if pair_is_clean(&log.lock(), &peers, Duration::from_millis(300)) && connected(&log.lock(), 0, &peers[1]) && connected(&log.lock(), 1, &peers[0]) {
+                    if pair_is_clean(&log.lock(), &peers, Duration::from_millis(300), if *one_sided { Some(n) } else { None }) && connected(&log.lock(), 0, &peers[1]) && connected(&log.lock(), 1, &peers[0]) {
                         clean = true;
                         break;
                     }
@@ -396,7 +485,7 @@ fn run_case_with(c: &Case, avoid_reject: bool) -> CaseResult {
                     let _ = nodes[k].probes[0].send(ProbeCmd::ForceClose(peers[1 - k]));
                     open_then_cut += 1;
                 }
-                let answered = wait_until(&log, Duration::from_secs(std::env::var("C11_DEADLINE").ok().and_then(|v| v.parse().ok()).unwrap_or(4)), |l| {
+                let answered = wait_until(&log, Duration::from_secs(if *one_sided { 13 } else { 4 }), |l| {
                     l[mark.min(l.len())..].iter().any(|o| o.node == n && matches!(&o.kind, ObsKind::NotifOpened { peer, .. } | ObsKind::NotifOpenFailure { peer, .. } if *peer == other))
                 });
                 clean_checked += 1;
@@ -405,10 +494,17 @@ fn run_case_with(c: &Case, avoid_reject: bool) -> CaseResult {
                     let own_validation = l[mark.min(l.len())..].iter().any(|o| o.node == n && matches!(&o.kind, ObsKind::NotifValidate { peer } if *peer == other));
                     fail!(
                         if own_validation && policy[n] == 1 { SIG_REJECT } else { "C11/clean-open-request-never-answered" },
-                        "node {n} opened a stream to a connected peer with nothing in progress (remote policy {}, auto-accept {}) and got neither opened nor open-failure within 4 s; events since: {:?}",
+                        "node {n} opened a stream to a connected peer with nothing in progress (remote policy {}, auto-accept {}) and got neither opened nor open-failure within {} s; events since: {:?}",
                         policy[m],
                         c.auto_accept[m],
-                        l[mark.min(l.len())..].iter().map(|o| format!("{}:{}", o.node, short(&o.kind))).collect::<Vec<_>>()
+                        if *one_sided { 13 } else { 4 },
+                        {
+                            let t0 = l.first().map(|o| o.t).unwrap_or_else(Instant::now);
+                            let mut v: Vec<String> = l[mark.min(l.len())..].iter().map(|o| format!("{}:{}", o.node, short(&o.kind))).collect();
+                            v.push("-- whole history:".into());
+                            v.extend(l.iter().filter(|o| o.node < 2).map(|o| format!("{}ms n{} {}", o.t.duration_since(t0).as_millis(), o.node, short(&o.kind))));
+                            v
+                        }
                     );
                 }
                 let n_answers = log.lock()[mark..].iter().filter(|o| o.node == n && matches!(&o.kind, ObsKind::NotifOpened { peer, .. } | ObsKind::NotifOpenFailure { peer, .. } if *peer == other)).count();
@@ -419,6 +515,7 @@ fn run_case_with(c: &Case, avoid_reject: bool) -> CaseResult {
             }
         }
     }
+    wait_thaw(&frozen_until);
     std::thread::sleep(Duration::from_millis(150));
 
     // liveness of others: a fresh node gets served by both nodes
@@ -523,6 +620,8 @@ fn run_case_with(c: &Case, avoid_reject: bool) -> CaseResult {
     ok.excluded = steered;
     Ok(ok
         .nt(simultaneous || disconnect_during_validation || reject_then_reopen || open_then_cut > 0)
+        .nt(froze_during_negotiation)
+        .class_if(froze_during_negotiation, "peer-silent-during-negotiation")
         .class_if(simultaneous, "simultaneous-opens")
         .class_if(disconnect_during_validation, "disconnect-during-validation")
         .class_if(reject_then_reopen, "reject-then-reopen")
@@ -552,5 +651,6 @@ pub fn run(ctx: &mut Ctx) {
     let avoid = ctx.avoid(SIG_REJECT) && ctx.is_generate();
     ctx.campaign("scripts", CampaignCfg::new(t.pick(480, 10_000)).shards(16).shrink_iters(6), strategy, move |c: &Case| run_case_with(c, avoid));
     ctx.campaign("clean-opens", CampaignCfg::new(t.pick(240, 5_000)).shards(16).shrink_iters(6), clean_strategy, move |c: &Case| run_case_with(c, avoid));
+    ctx.campaign("silent-peer", CampaignCfg::new(t.pick(96, 2_000)).shards(16).shrink_iters(4), silent_strategy, move |c: &Case| run_case_with(c, avoid));
     ctx.campaign("stale-validation", CampaignCfg::new(t.pick(160, 3_000)).shards(16).shrink_iters(6), stale_strategy, move |c: &Case| run_case_with(c, avoid));
 }
